@@ -317,7 +317,9 @@ def compare(beh, info, res, tol=2e-5, log_on=True):
         if same and s["g"] in ROT:
             same = abs(e["t"] - angle_expr(s["k"], s.get("m", 0))[1]) < 1e-9
         if not same:
-            out.append(("C03", "operation #%d on the simulator is %s, spec %s (wrong qubit index or gate)" % (i + 1, e, s)))
+            # a gate that reached the simulator with another name, index or angle than the program wrote is C01's business too
+            out.append(("C01,C03" if s["g"] not in ("measure", "reset") else "C03",
+                        "operation #%d on the simulator is %s, spec %s (wrong qubit index or gate)" % (i + 1, e, s)))
             break
         if s["g"] in ("measure", "reset") and e.get("out") != s["out"]:
             prop = "C02" if s["g"] == "measure" else "C04"
